@@ -49,6 +49,9 @@ pub fn open_as_container_pack(reader: Reader) -> Result<ContainerPack> {
         Ok(pack_header) => (pack_header, Offset::zero()),
         Err(_) => {
             //Check at end
+            if reader.size() < Size::new(64) {
+                return Err(format_error!("File is too small to be a Jubako pack"));
+            }
             let mut buffer_reader = [0u8; 64];
             reader
                 .create_stream((reader.size() - Size::new(64)).into(), Size::new(64), false)?
@@ -56,6 +59,11 @@ pub fn open_as_container_pack(reader: Reader) -> Result<ContainerPack> {
             buffer_reader.reverse();
             let end_reader: Reader = buffer_reader.into();
             let pack_header = end_reader.parse_block_at::<PackHeader>(Offset::zero())?;
+            if pack_header.file_size > reader.size() {
+                return Err(format_error!(
+                    "The pack declared by the tail header is bigger than the file"
+                ));
+            }
             let origin = reader.size() - pack_header.file_size;
             (pack_header, origin.into())
         }
